@@ -42,6 +42,12 @@ func rangePoints(m *model.Set32) []uint64 {
 // queryBattery runs every scalar query of property C03 on b against the sorted list of m.
 // It returns the number of query evaluations.
 func queryBattery(b *roaring.Bitmap, m *model.Set32) (int, *ev.Fail) {
+	return queryBatteryOpt(b, m, true)
+}
+
+// queryBatteryOpt: withChecksum=false leaves out the Checksum-under-round-trip clause, which
+// property C03 states for library-made bitmaps only (Checksum hashes the stored form).
+func queryBatteryOpt(b *roaring.Bitmap, m *model.Set32, withChecksum bool) (int, *ev.Fail) {
 	n := 0
 	L := m.Slice()
 	card := uint64(len(L))
@@ -133,7 +139,7 @@ func queryBattery(b *roaring.Bitmap, m *model.Set32) (int, *ev.Fail) {
 		return n, fail("Checksum", "clone", "Checksum changes under Clone: %x vs %x", g, cs)
 	}
 	var buf bytes.Buffer
-	if _, err := b.WriteTo(&buf); err == nil {
+	if _, err := b.WriteTo(&buf); err == nil && withChecksum {
 		rt := roaring.New()
 		if _, err := rt.ReadFrom(bytes.NewReader(buf.Bytes())); err == nil {
 			if g := rt.Checksum(); g != cs {
